@@ -8,7 +8,7 @@ field. Size arithmetic is normalised to a linear form with ceil terms and compar
 import ast
 import re
 from .core import AnalysisError
-from .astutil import src
+from .astutil import src, expand_locals, single_defs
 from .tables import pyx_source, strip_comments
 
 PACK = 'chython/containers/_pack_v2.pyx'
@@ -365,7 +365,7 @@ def rule_sizes(ck, repo, R):
             t = src(n.test)
             for st in n.body:
                 if isinstance(st, ast.AugAssign) and src(st.target) == 'shift' and t in ('v == 2', 'v == 0'):
-                    incs[t] = st.value
+                    incs[t] = expand_locals(st.value, f.node, only=set(single_defs(f.node)) - {'acs', 'ac', 'neighbors', 'shift', 'v', 'data'})  # named sub-expressions (`ct_size = (acs & 0x0fff) * 4`) are folded back
     ck.require(set(incs) == {'v == 2', 'v == 0'}, 'pack_len: per-version shift increments not found')
     penv = {'neighbors': B}
 
